@@ -167,11 +167,12 @@ pub fn relabel_with<'a, H: HashFunction, D: SetDataset>(
                 ));
             }
             if let Some(bnid) = component.bnode_id() {
-                state
-                    .b2q
-                    .entry(Rc::from(bnid.as_str()))
-                    .or_default()
-                    .push(quad);
+                let quads = state.b2q.entry(Rc::from(bnid.as_str())).or_default();
+                // a quad must be referenced only once,
+                // even if the blank node occurs several times in it
+                if !quads.last().is_some_and(|q| std::ptr::eq(*q, quad)) {
+                    quads.push(quad);
+                }
             }
         }
     }
